@@ -16,7 +16,7 @@
 (* (ClocRef!DiffTable / DiffConsole / DiffJson) that judges the real binary.           *)
 EXTENDS ClocRef, Json
 
-CONSTANTS Shape,         \* "bydir2" | "bydir3" | "top2" | "top3": which input family Init enumerates
+CONSTANTS Shape,         \* "bydir2" | "bydir3" | "bydir2w" | "top2q" | "top2" | "top3": which input family is enumerated
           Roots,         \* set of DIR spellings
           ExtFilters,    \* set of include-ext lists, by name: "none" | "java" | "go" | "kt"
           Tops           \* set of --top-size values
@@ -49,27 +49,35 @@ vars == <<input, pc, ret, DirFilePaths, FileOutput, Format, Files, AllowExt, nru
 (* input families *)
 
 LangSeq == <<[lang |-> "Java", ext |-> "java"], [lang |-> "Go", ext |-> "go"], [lang |-> "Python", ext |-> "py"]>>
-NLang == IF Shape \in {"bydir2", "top2"} THEN 2 ELSE 3
+NLang == IF Shape \in {"bydir2w", "top3"} THEN 3 ELSE 2
 LI == 1..NLang
+Mode == IF Shape \in {"bydir2", "bydir3", "bydir2w"} THEN "bydir" ELSE "top"
 
 \* one option = the files of one language in one directory: Seq([c |-> code lines, o |-> comment = blank lines])
+\* (c = 0, o = 0: a zero-line file; c = 0, o = 1: a file of comments and blank lines only)
 Fo(c, o) == [c |-> c, o |-> o]
 OptNone == <<>>
 CellOptsByDir == {OptNone, <<Fo(0, 1)>>, <<Fo(1, 0)>>, <<Fo(1, 1), Fo(3, 0)>>}
-CellOptsByDirWide == CellOptsByDir \cup {<<Fo(0, 0)>>, <<Fo(3, 1)>>}
-CellOptsTop == {OptNone, <<Fo(1, 0)>>, <<Fo(3, 1), Fo(1, 0)>>, <<Fo(1, 1), Fo(3, 0), Fo(3, 1)>>}
+CellOptsByDirWide == {OptNone, <<Fo(0, 0)>>, <<Fo(3, 1)>>, <<Fo(1, 1), Fo(3, 0)>>}
+CellOptsTopQuick == {OptNone, <<Fo(1, 0)>>, <<Fo(1, 1), Fo(3, 0), Fo(3, 1)>>}
+CellOptsTop == CellOptsTopQuick \cup {<<Fo(3, 1), Fo(1, 0)>>}
 CellOptsTopWide == CellOptsTop \cup {<<Fo(0, 0), Fo(0, 1)>>, <<Fo(3, 0)>>}
 RootOpts == {OptNone, <<Fo(1, 1)>>}
 
 DirOrder == <<".git", ".hg", ".idea", ".svn", "coca_reporter", "east", "tea", "web">>
-DirPool == CASE Shape = "bydir2" -> {".git", ".idea", "coca_reporter", "east", "web"}
-             [] Shape = "bydir3" -> {".git", ".hg", ".idea", ".svn", "coca_reporter", "east", "web"}
-             [] Shape = "top2"   -> {".idea", "east", "tea"}
-             [] Shape = "top3"   -> {".git", ".idea", "east", "tea"}
-MaxDirs == CASE Shape = "bydir2" -> 2 [] Shape = "bydir3" -> 3 [] Shape = "top2" -> 2 [] Shape = "top3" -> 2
-CellOpts == CASE Shape = "bydir2" -> CellOptsByDir [] Shape = "bydir3" -> CellOptsByDirWide
-              [] Shape = "top2" -> CellOptsTop [] Shape = "top3" -> CellOptsTopWide
-Mode == IF Shape \in {"bydir2", "bydir3"} THEN "bydir" ELSE "top"
+DirPool == CASE Shape = "bydir2"  -> {".git", ".idea", "coca_reporter", "east", "web"}
+             [] Shape = "bydir3"  -> {".git", ".idea", "coca_reporter", "east", "web"}
+             [] Shape = "bydir2w" -> {".git", ".hg", ".idea", ".svn", "coca_reporter", "east", "web"}
+             [] Shape = "top2q"   -> {".idea", "east", "tea"}
+             [] Shape = "top2"    -> {".idea", "east", "tea"}
+             [] Shape = "top3"    -> {".git", ".idea", "east", "tea"}
+MaxDirs == CASE Shape = "bydir3" -> 3 [] Shape = "top3" -> 1 [] OTHER -> 2
+CellOpts == CASE Shape = "bydir2" -> CellOptsByDir [] Shape = "bydir3" -> CellOptsByDir [] Shape = "bydir2w" -> CellOptsByDirWide
+              [] Shape = "top2q" -> CellOptsTopQuick [] Shape = "top2" -> CellOptsTop [] Shape = "top3" -> CellOptsTopWide
+\* files directly in DIR
+RootChoices == IF Shape = "bydir2w"
+               THEN {[li_ \in LI |-> OptNone], [li_ \in LI |-> IF li_ = 3 THEN <<Fo(1, 1)>> ELSE OptNone]}
+               ELSE [LI -> RootOpts]
 
 ExtList(n) == CASE n = "none" -> <<>> [] n = "java" -> <<"java">> [] n = "go" -> <<"go">>
                 [] n = "kt" -> <<"kt">> [] n = "java,py" -> <<"java", "py">>
@@ -86,9 +94,9 @@ FilesOf(d, c) == Flat([li_ \in LI |-> [k \in 1..Len(c[li_]) |-> FileRec(d, li_, 
 DirSets == {D \in SUBSET DirPool : Cardinality(D) <= MaxDirs}
 SeqOfDirs(D) == SelectSeq(DirOrder, LAMBDA d : d \in D)
 
-MkInput(r, e, t, ds, rc, c) ==
-  [root |-> r, modes |-> <<Mode>>, ext |-> ExtList(e), top |-> t, dirs |-> ds,
-   files |-> FilesOf("", rc) \o Flat([k \in 1..Len(ds) |-> FilesOf(ds[k], [li_ \in LI |-> c[<<ds[k], li_>>]])])]
+\* The tree is chosen incrementally (one directory per `Build` step) so that TLC's workers share the
+\* enumeration; `Build` is not part of the modelled command.
+Skeleton(r, e, t, ds) == [root |-> r, modes |-> <<Mode>>, ext |-> ExtList(e), top |-> t, dirs |-> ds, files |-> <<>>]
 
 -----------------------------------------------------------------------------
 (* the counting engine, as far as coca depends on it *)
@@ -127,23 +135,34 @@ Scc(p, allow, withFiles) ==
 
 -----------------------------------------------------------------------------
 Init ==
-  /\ \E D \in DirSets, r \in Roots, e \in ExtFilters, t \in Tops, rc \in [LI -> RootOpts] :
-       \E c \in [D \X LI -> CellOpts] : input = MkInput(r, e, t, SeqOfDirs(D), rc, c)
-  /\ pc = "start" /\ ret = ""
+  /\ \E D \in DirSets, r \in Roots, e \in ExtFilters, t \in Tops : input = Skeleton(r, e, t, SeqOfDirs(D))
+  /\ pc = "build" /\ ret = ""
   /\ DirFilePaths = <<>> /\ FileOutput = "" /\ Format = "tabular" /\ Files = FALSE
-  /\ AllowExt = input.ext                      \* flag parsing: --include-ext
+  /\ AllowExt = <<>>
   /\ nruns = 0 /\ fs = <<>> /\ dirs = <<>> /\ di = 0 /\ keys = <<>> /\ outputFiles = <<>> /\ ci = 0
   /\ languageMap = <<>> /\ pending = {} /\ data = <<>> /\ sums = <<>> /\ li = 0 /\ srest = {} /\ sacc = <<>> /\ tables = <<>>
   /\ obs = [panic |-> FALSE]
 
 U(vs) == UNCHANGED vs
 
-\* clocCmd.Run: --top-file wins over --by-directory
+\* input construction: files directly in DIR first (di = 0), then one sub-directory per step
+Build ==
+  /\ pc = "build"
+  /\ IF di > Len(input.dirs) THEN /\ pc' = "start" /\ di' = 0 /\ input' = input
+     ELSE /\ \E c \in (IF di = 0 THEN RootChoices ELSE [LI -> CellOpts]) :
+               input' = [input EXCEPT !.files = @ \o FilesOf(IF di = 0 THEN "" ELSE input.dirs[di], c)]
+          /\ di' = di + 1 /\ pc' = pc
+  /\ UNCHANGED <<srest, sacc>>
+  /\ U(<<ret, DirFilePaths, FileOutput, Format, Files, AllowExt, nruns, fs, dirs, keys, outputFiles, ci,
+         languageMap, pending, data, sums, li, tables, obs>>)
+
+\* clocCmd.Run: flags are parsed into the option registers; --top-file wins over --by-directory
 Start ==
   /\ pc = "start"
+  /\ AllowExt' = input.ext
   /\ pc' = IF Mode = "top" THEN "top_opts" ELSE "readdir"
   /\ UNCHANGED <<srest, sacc>>
-  /\ U(<<input, ret, DirFilePaths, FileOutput, Format, Files, AllowExt, nruns, fs, dirs, di, keys, outputFiles, ci,
+  /\ U(<<input, ret, DirFilePaths, FileOutput, Format, Files, nruns, fs, dirs, di, keys, outputFiles, ci,
          languageMap, pending, data, sums, li, tables, obs>>)
 
 \* runProcessor(): processor.Process() with whatever the option registers hold now
@@ -277,12 +296,13 @@ TopSortBegin ==   \* SortLangeByCode: one language per iteration; sort.Slice by 
   /\ U(<<input, ret, DirFilePaths, FileOutput, Format, Files, AllowExt, nruns, fs, dirs, di, keys, outputFiles, ci,
          languageMap, pending, data, sums, li, tables, obs>>)
 
-TopSortPick ==    \* sort.Slice is not stable: among equal Code any order may result
+TopSortPick ==    \* sort.Slice is not stable in general; for the short lists here it is an insertion sort, i.e.
+                  \* equal Code keeps the engine's order. The Machine fixes that order (the Reference allows any).
   /\ pc = "top_sort_pick" /\ srest # {}
-  /\ \E m \in srest :
-       /\ \A j \in srest : sums[li].Files[m].Code >= sums[li].Files[j].Code
-       /\ sacc' = Append(sacc, sums[li].Files[m])
-       /\ srest' = srest \ {m}
+  /\ LET best == {m \in srest : \A j \in srest : sums[li].Files[m].Code >= sums[li].Files[j].Code}
+         m == CHOOSE x \in best : \A y \in best : x <= y
+     IN  /\ sacc' = Append(sacc, sums[li].Files[m])
+         /\ srest' = srest \ {m}
   /\ U(<<input, pc, ret, DirFilePaths, FileOutput, Format, Files, AllowExt, nruns, fs, dirs, di, keys, outputFiles, ci,
          languageMap, pending, data, sums, li, tables, obs>>)
 
@@ -339,7 +359,7 @@ TopWrite ==    \* coca_reporter/sort_cloc.json: the sorted summaries, all files
 Finished == pc = "done"
 Done == Finished /\ UNCHANGED vars
 
-Next == Start \/ Run \/ ReadDir \/ BaseOpts \/ BuildBaseKey \/ LoopSkip \/ LoopOpts \/ LoopNext \/ LoopEnd
+Next == Build \/ Start \/ Run \/ ReadDir \/ BaseOpts \/ BuildBaseKey \/ LoopSkip \/ LoopOpts \/ LoopNext \/ LoopEnd
         \/ BuildLanguageMap \/ CsvHeader \/ CsvRow \/ WriteToCsv
         \/ TopOpts \/ TopRead \/ TopSortBegin \/ TopSortPick \/ TopSortStore \/ TopSortEnd \/ TopPrint \/ TopPrintEnd \/ TopWrite \/ Done
 
